@@ -340,7 +340,7 @@ func c11ArgsAgain(m methodRef, call C17Call, t c11Target, twin any) ([]reflect.V
 
 var c11RecvGen = TreeGen{MaxDepth: 3, MaxWidth: 4, Budget: 16, Kinds: stackKinds,
 	Leaf: func(t *rapid.T) Val { return genPrimVal(t, true, true) }, Conds: true, CondExprStack: true, CondExprCond: true, InvalidConds: true, NilLeaves: true, EmptyStacks: true,
-	Options: true, Caps: true, IndexOpts: true, MutexOpt: true, FIFOOpt: true, Wraps: true, ZooLeaves: true, OddEncap: true, UnmarshalFailers: true, Ambient: true, WideRuns: true, NoNestAfter: true, ReadOnlyNodes: true}
+	Options: true, Caps: true, IndexOpts: true, MutexOpt: true, FIFOOpt: true, Wraps: true, ZooLeaves: true, OddEncap: true, UnmarshalFailers: true, Ambient: true, Pasts: true, WideRuns: true, NoNestAfter: true, ReadOnlyNodes: true}
 
 func genC11(t *rapid.T, tier Tier) C11Case {
 	c := C11Case{Root: c11RecvGen.Draw(t), Rich: rapid.Bool().Draw(t, "rich"), RO: rapid.IntRange(0, 2).Draw(t, "ro") == 0}
